@@ -47,11 +47,34 @@ theorem forced_unst (ν : BaseValues) (τ : Valuation) (L : List Iv) (hL : ∀ i
   rw [forced_worldOf (nuOf ν τ) L i hi (consistent_of_unst L hL)]
   simp [ivValue, nuOf, hL i hi]
 
+/-- in a consistent world read under `τ`, a variable named by a subscript is forced to its value under `τ` — provided `τ` gives
+the variables with a STARRED subscript the starred value -/
+theorem forced_nuOf (ν : BaseValues) (τ : Valuation) (L : List Iv) (hL : ConsistentSubs L)
+    (hτ : ∀ i ∈ L, i.star = true → τ i.name = ν i.name true) (p : Name) (hp : p ∈ L.map (·.name)) :
+    forced (worldOf (nuOf ν τ) L) p = some (τ p) := by
+  obtain ⟨i, hi, rfl⟩ := List.mem_map.1 hp
+  rw [forced_worldOf (nuOf ν τ) L i hi hL]
+  cases hs : i.star with
+  | false => simp [ivValue, nuOf, hs]
+  | true => simp [ivValue, nuOf, hs, hτ i hi hs]
+
+/-- re-binding a variable the world does not name does not change the world -/
+theorem worldOf_nuOf_update' (ν : BaseValues) (τ : Valuation) (L : List Iv) (r : Name)
+    (hr : r ∉ L.map (·.name)) (x : Nat) : worldOf (nuOf ν (update τ r x)) L = worldOf (nuOf ν τ) L := by
+  unfold worldOf
+  apply List.map_congr_left
+  intro i hi
+  have : i.name ≠ r := fun e => hr (List.mem_map.2 ⟨i, hi, e⟩)
+  simp [ivValue, nuOf, update, this]
+
+theorem consistentSubs_subset {L w : List Iv} (hw : ConsistentSubs w) (h : ∀ i ∈ L, i ∈ w) : ConsistentSubs L :=
+  fun i hi j hj hij => hw i (h i hi) j (h j hj) hij
+
 section
-variable {G : MG Name} {w : World} {ev : Event} {g : MG Var} {nev : Event}
+variable {G : MG Name} {w : World} {s : Name → Bool} {ev : Event} {g : MG Var} {nev : Event}
 
 /-- a node that is not non-self-intervened is `X @ w` for a variable `X` named in `w` -/
-theorem SWFacts.selfIntervened (facts : SWFacts G w ev g nev) (x : Var) (hx : x ∈ g.nodes)
+theorem SWFacts.selfIntervened (facts : SWFacts G w s ev g nev) (x : Var) (hx : x ∈ g.nodes)
     (hn : isNotSelfIntervened x = false) : x = atWorld x.name w ∧ x.name ∈ w.map (·.name) := by
   rcases facts.shape x hx with h | h
   · rw [h] at hn
@@ -69,13 +92,33 @@ theorem SWFacts.selfIntervened (facts : SWFacts G w ev g nev) (x : Var) (hx : x 
     rw [hivs] at hi
     exact List.mem_map.2 ⟨i, hi, hin⟩
 
+/-- the single-world facts contain the district facts -/
+theorem SWFacts.toD (facts : SWFacts G w s ev g nev) : DFacts G s g nev where
+  wf := facts.wf
+  nodeOK := facts.nodeOK
+  inj := facts.inj
+  rep := facts.rep
+  biRep := facts.biRep
+  sep := by
+    intro v hv hvn n hn hnn hname
+    have := (facts.selfIntervened v hv hvn).2
+    rw [hname] at this
+    exact facts.notW n hn hnn this
+  nevVals := facts.nevVals
+  nevOK := facts.nevOK
+  keysNodes := facts.keysNodes
+  proj := facts.proj
+
 /-- **the non-self-intervened variables form a local set in the world of the event** — and in every sub-world `L ⊆ w` that
 contains all of `w` as soon as some node still lives in `w` -/
-theorem localSet_world (M : Model) (ν : BaseValues) (hM : Compatible M G) (facts : SWFacts G w ev g nev) (hwU : ∀ i ∈ w, i.star = false) (T : List Name)
+theorem localSet_world (M : Model) (ν : BaseValues) (hM : Compatible M G) (facts : SWFacts G w s ev g nev)
+    (hwc : ConsistentSubs w) (T : List Name)
     (hT : ∀ V, V ∈ T ↔ ∃ n ∈ (nsiSubgraph g).nodes, n.name = V) (L : List Iv) (hL1 : ∀ i ∈ L, i ∈ w)
-    (hL2 : (∃ n ∈ (nsiSubgraph g).nodes, n ≠ Var.plain n.name) → ∀ i ∈ w, i ∈ L) (τ : Valuation) :
+    (hL2 : (∃ n ∈ (nsiSubgraph g).nodes, n ≠ Var.plain n.name) → ∀ i ∈ w, i ∈ L) (τ : Valuation)
+    (hτw : ∀ i ∈ w, i.star = true → τ i.name = ν i.name true) :
     LocalSet M (worldOf (nuOf ν τ) L) τ T := by
-  have hLU : ∀ i ∈ L, i.star = false := fun i hi => hwU i (hL1 i hi)
+  have hLc : ConsistentSubs L := consistentSubs_subset hwc hL1
+  have hτL : ∀ i ∈ L, i.star = true → τ i.name = ν i.name true := fun i hi => hτw i (hL1 i hi)
   intro V hV
   obtain ⟨n, hnN, rfl⟩ := (hT V).1 hV
   obtain ⟨hng, hnsi⟩ := (mem_nsiSubgraph_iff g n).1 hnN
@@ -105,7 +148,7 @@ theorem localSet_world (M : Model) (ν : BaseValues) (hM : Compatible M G) (fact
         rw [hx'.1] at hxp
         exact plain_ne_atWorld _ _ hw hxp.symm
       have hsub := hL2 ⟨n, hnN, hnw⟩
-      apply forced_unst ν τ L hLU p
+      apply forced_nuOf ν τ L hLc hτL p
       obtain ⟨i, hi, hin⟩ := List.mem_map.1 hx'.2
       exact List.mem_map.2 ⟨i, hsub i hi, hin⟩
 
@@ -113,9 +156,10 @@ theorem localSet_world (M : Model) (ν : BaseValues) (hM : Compatible M G) (fact
 /-- **marginalisation to the event**: the joint distribution of all non-self-intervened variables in the world `w` of the
 event, summed over the variables that are not in the event, is the probability of the event -/
 theorem sumOver_world (M : Model) (ν : BaseValues) (dom : Name → Nat) (hM : Compatible M G)
-    (hdom : ∀ v ps us, M.f v ps us < dom v) (facts : SWFacts G w ev g nev) (hfr : Frag G w ev) (hnsiK : ∀ k ∈ nev.keys, isNotSelfIntervened k = true)
+    (hdom : ∀ v ps us, M.f v ps us < dom v) (facts : SWFacts G w s ev g nev) (hfr : Frag2 G w s ev) (hnsiK : ∀ k ∈ nev.keys, isNotSelfIntervened k = true)
     (T : List Name) (hT : ∀ V, V ∈ T ↔ ∃ n ∈ (nsiSubgraph g).nodes, n.name = V) (rs : List Name) (hrs : rs.Nodup)
-    (hrsm : ∀ V, V ∈ rs ↔ V ∈ T ∧ V ∉ ev.keys.map (·.name)) (σ : Valuation) :
+    (hrsm : ∀ V, V ∈ rs ↔ V ∈ T ∧ V ∉ ev.keys.map (·.name)) (σ : Valuation)
+    (hσ : ∀ k ∈ ev.keys, s k.name = true → σ k.name = ν k.name true) :
     sumOver dom rs (fun τ => prob M (T.map fun V => ⟨V, worldOf (nuOf ν τ) w, τ V⟩)) σ = probEvent M (nuOf ν σ) ev := by
   have hnotW : ∀ V ∈ T, V ∉ w.map (·.name) := by
     intro V hV
@@ -131,8 +175,20 @@ theorem sumOver_world (M : Model) (ν : BaseValues) (dom : Name → Nat) (hM : C
     rw [solve_unforced M hM.topoOrder u _ r hro (forced_worldOf_none' _ w r (hnotW r hrT))]
     exact hdom _ _ _
   rw [sumOver_prob M dom T (fun τ => worldOf (nuOf ν τ) w) rs hbound hrs (fun r hr => ((hrsm r).1 hr).1)
-    (fun r hr τ x => worldOf_nuOf_update ν τ w hfr.wUnst r (hnotW r ((hrsm r).1 hr).1) x) σ]
+    (fun r hr τ x => worldOf_nuOf_update' ν τ w r (hnotW r ((hrsm r).1 hr).1) x) σ]
   unfold probEvent
+  -- the conjunct of a key, read under `σ`
+  have hconj : ∀ k v, (k, v) ∈ ev → conjunctOf (nuOf ν σ) (k, v) = ⟨k.name, worldOf (nuOf ν σ) w, σ k.name⟩ := by
+    intro k v hv
+    have hk : k ∈ ev.keys := (mem_keys_iff ev k).2 ⟨v, hv⟩
+    have hvk : v = ⟨k.name, s k.name⟩ := hfr.vals _ hv
+    have hkw : k.ivs = w := by rw [hfr.keysIn k hk]; rfl
+    have hval : ivValue (nuOf ν σ) v = σ k.name := by
+      rw [hvk]
+      cases hs : s k.name with
+      | false => simp [ivValue, nuOf]
+      | true => simp [ivValue, nuOf, hσ k hk hs]
+    simp only [conjunctOf, hkw, hval]
   -- the remaining variables are exactly the key names
   have hkeyT : ∀ k ∈ ev.keys, k.name ∈ T := by
     intro k hk
@@ -150,11 +206,7 @@ theorem sumOver_world (M : Model) (ν : BaseValues) (dom : Name → Nat) (hM : C
     obtain ⟨k, hk, rfl⟩ := List.mem_map.1 hVk
     obtain ⟨v, hv⟩ := (mem_keys_iff ev k).1 hk
     refine ⟨conjunctOf (nuOf ν σ) (k, v), List.mem_map.2 ⟨(k, v), hv, rfl⟩, fun u => ?_⟩
-    have hvk := hfr.unst _ hv
-    simp only at hvk
-    have hkw : k.ivs = w := by rw [hfr.keysIn k hk]; rfl
-    simp only [conjunctOf, hkw, hvk, ivValue, nuOf]
-    rfl
+    rw [hconj k v hv]
   · intro c hc
     obtain ⟨p, hp, rfl⟩ := List.mem_map.1 hc
     have hk : p.1 ∈ ev.keys := (mem_keys_iff ev p.1).2 ⟨p.2, hp⟩
@@ -165,10 +217,7 @@ theorem sumOver_world (M : Model) (ν : BaseValues) (dom : Name → Nat) (hM : C
       simp only [decide_eq_true_eq]
       intro hr
       exact ((hrsm _).1 hr).2 (List.mem_map.2 ⟨p.1, hk, rfl⟩)
-    · have hvk := hfr.unst _ hp
-      have hkw : p.1.ivs = w := by rw [hfr.keysIn p.1 hk]; rfl
-      simp only [conjunctOf, hkw, hvk, ivValue, nuOf]
-      rfl
+    · rw [show p = (p.1, p.2) from rfl, hconj p.1 p.2 hp]
 
 
 /-- the order in which the nodes of a district are iterated is a permutation of the district -/
@@ -177,7 +226,7 @@ def PermDistrict (dordf : List Var → List Var) : Prop := ∀ d, (dordf d).Perm
 theorem PermDistrict.subset {dordf : List Var → List Var} (h : PermDistrict dordf) : SubsetOrder dordf :=
   fun d x hx => (h d).mem_iff.1 hx
 
-theorem mem_toInterventions_unst (facts : SWFacts G w ev g nev) (pillow : List Var) (hp : ∀ v ∈ pillow, v ∈ g.nodes) (i : Iv) :
+theorem mem_toInterventions_unst (facts : DFacts G s g nev) (pillow : List Var) (hp : ∀ v ∈ pillow, v ∈ g.nodes) (i : Iv) :
     i ∈ ivsCanon (toInterventions pillow) ↔ ∃ v ∈ pillow, i = ⟨v.name, false⟩ := by
   rw [mem_ivsCanon]
   unfold toInterventions
@@ -193,7 +242,7 @@ theorem mem_toInterventions_unst (facts : SWFacts G w ev g nev) (pillow : List V
     rfl
 
 /-- **the variables of a district form a local set in the world of the district's Markov pillow** -/
-theorem localSet_district (M : Model) (ν : BaseValues) (hM : Compatible M G) (facts : SWFacts G w ev g nev)
+theorem localSet_district (M : Model) (ν : BaseValues) (hM : Compatible M G) (facts : DFacts G s g nev)
     {dordf : List Var → List Var} (hdo : PermDistrict dordf) (D : List Var) (hD : D ∈ (nsiSubgraph g).districts)
     (pillow : List Var) (hp : g.markovPillow (dordf D) = .ok pillow) (τ : Valuation) :
     LocalSet M (worldOf (nuOf ν τ) (ivsCanon (toInterventions pillow))) τ (D.map (·.name)) := by
@@ -224,9 +273,7 @@ theorem localSet_district (M : Model) (ν : BaseValues) (hM : Compatible M G) (f
     by_cases hvnsi : isNotSelfIntervened v = true
     · have : v = n := facts.inj v (hpnode v hv) n hng hvnsi hnsi hin
       exact hvD ((hdo D).mem_iff.2 (this ▸ hnD))
-    · have := (facts.selfIntervened v (hpnode v hv) (by simpa using hvnsi)).2
-      rw [hin] at this
-      exact facts.notW n hng hnsi this
+    · exact facts.sep v (hpnode v hv) (by simpa using hvnsi) n hng hnsi hin
   · intro p hpp
     obtain ⟨x, hxn, hxname⟩ := facts.rep n hng hnsi p (hM.pa_sub n.name p hpp)
     by_cases hxD : x ∈ dordf D
@@ -240,7 +287,7 @@ theorem localSet_district (M : Model) (ν : BaseValues) (hM : Compatible M G) (f
 /-- **c-component factorisation**: the joint local event of all non-self-intervened variables is the product over the
 districts of the counterfactual graph -/
 theorem mass_districts (M : Model) (hM : Compatible M G) (hn : ∀ pmf ∈ M.noise, pmf.sum = 1)
-    (facts : SWFacts G w ev g nev) (T : List Name) (hT : ∀ V, V ∈ T ↔ ∃ n ∈ (nsiSubgraph g).nodes, n.name = V) (τ : Valuation) :
+    (facts : DFacts G s g nev) (T : List Name) (hT : ∀ V, V ∈ T ↔ ∃ n ∈ (nsiSubgraph g).nodes, n.name = V) (τ : Valuation) :
     mass M.noise (fun u => T.all (localOK M τ u)) =
       ((nsiSubgraph g).districts.map fun D => mass M.noise (fun u => (D.map (·.name)).all (localOK M τ u))).prod := by
   have hwfn := wf_nsiSubgraph g
